@@ -11,11 +11,17 @@ from twisted.python.failure import Failure
 if TYPE_CHECKING:
     from twisted.web.template import Flattenable
 
+# The characters that are not allowed in a XML 1.0 document,
+# the surrogates excepted (they can't be encoded to UTF-8 in the first place).
 _RE_CONTROL = re.compile((
     '[' + ''.join(
-    ch for ch in map(chr, range(0, 32)) if ch not in '\r\n\t\f'
-    ) + ']'
-    ).encode())
+    ch for ch in map(chr, range(0, 32)) if ch not in '\r\n\t'
+    ) + '\ufffe\uffff]'
+    ))
+
+def _escape_control(m: 're.Match[str]') -> str:
+    code = ord(m.group())
+    return '\\x%02x' % code if code < 256 else '\\u%04x' % code
 
 def html2stan(html: Union[bytes, str]) -> Tag:
     """
@@ -26,10 +32,10 @@ def html2stan(html: Union[bytes, str]) -> Tag:
     @raises xml.sax.SAXParseException: If L{XMLString} fails to parse the html data.
         See U{https://github.com/twisted/twisted/issues/11581}.
     """
-    if isinstance(html, str):
-        html = html.encode('utf8')
+    if isinstance(html, bytes):
+        html = html.decode('utf8')
 
-    html = _RE_CONTROL.sub(lambda m:b'\\x%02x' % ord(m.group()), html)
+    html = _RE_CONTROL.sub(_escape_control, html).encode('utf8')
     if not html.startswith(b'<?xml'):
         stan = XMLString(b'<div>%s</div>' % html).load()[0]
         assert isinstance(stan, Tag)
